@@ -24,24 +24,36 @@ MW == {1, 2}
 Ops == { [k |-> "new", i |-> i, c |-> c] : i \in MW, c \in {"A", "B"} }
        \cup { [k |-> "reconf", i |-> i, c |-> c] : i \in MW, c \in {"A", "B", "nil", "invalid"} }
        \cup { [k |-> "setdebug", i |-> i, b |-> b] : i \in MW, b \in BOOLEAN }
-       \cup { [k |-> x, i |-> i] : x \in {"mutarg", "mutresult", "servemut"}, i \in MW }
+       \cup { [k |-> x, i |-> i] : x \in {"mutarg", "mutresult", "servemut", "reuse"}, i \in MW }
+\* "reuse": the caller edits, IN PLACE, one element of the Config it last passed to middleware i (still a valid Config, now
+\* named <old name>R) and passes the very same value to Reconfigure again: the middleware must take up the new content.
 
-VARIABLES st, hist
-vars == <<st, hist>>
+VARIABLES st, hist, arg     \* arg[i]: what the Config value last passed to middleware i now contains
+vars == <<st, hist, arg>>
 
 None == [icfg |-> "none", debug |-> FALSE]         \* middleware i does not exist yet
 Exists(i) == st[i] # None
 
+Reused(c) == IF c \in {"A", "AR"} THEN "AR" ELSE "BR"
 Apply(o) ==
   CASE o.k = "new"      -> [st EXCEPT ![o.i] = NewState(o.c)]
     [] o.k = "reconf"   -> IF o.c = "invalid" THEN st ELSE [st EXCEPT ![o.i] = CommitState(st[o.i], o.c)]
     [] o.k = "setdebug" -> [st EXCEPT ![o.i] = SetDebugState(st[o.i], o.b)]
+    [] o.k = "reuse"    -> [st EXCEPT ![o.i] = CommitState(st[o.i], Reused(arg[o.i]))]
     [] OTHER            -> st                          \* caller-side mutation and mutating handlers: stuttering
-Enabled(o) == o.k = "new" \/ Exists(o.i)
+ApplyArg(o) ==
+  CASE o.k = "new"                        -> [arg EXCEPT ![o.i] = o.c]
+    [] o.k = "reconf" /\ o.c # "nil"      -> [arg EXCEPT ![o.i] = o.c]
+    [] o.k = "mutarg"                     -> [arg EXCEPT ![o.i] = "junk"]       \* overwritten with garbage
+    [] o.k = "reuse"                      -> [arg EXCEPT ![o.i] = Reused(arg[o.i])]
+    [] OTHER                              -> arg
+Enabled(o) == \/ o.k = "new"
+              \/ o.k = "reuse" /\ Exists(o.i) /\ arg[o.i] \in {"A", "B", "AR", "BR"}
+              \/ o.k \notin {"new", "reuse"} /\ Exists(o.i)
 
-Init == st = [i \in MW |-> None] /\ hist = <<>>
+Init == st = [i \in MW |-> None] /\ hist = <<>> /\ arg = [i \in MW |-> "none"]
 Next == /\ Len(hist) < MaxLen
-        /\ \E o \in Ops : Enabled(o) /\ st' = Apply(o) /\ hist' = Append(hist, o)
+        /\ \E o \in Ops : Enabled(o) /\ st' = Apply(o) /\ arg' = ApplyArg(o) /\ hist' = Append(hist, o)
 Spec == Init /\ [][Next]_vars
 
 PassthroughHasDebugOff == \A i \in MW : st[i].icfg = Nil => ~st[i].debug
